@@ -1,3 +1,4 @@
+import LibconfigModel.Generated.Constants
 import LibconfigModel.WriteFile
 /-
   C12 — config_write_file never reports success for an incomplete file.
@@ -53,5 +54,9 @@ theorem C12_settings_untouched (bufLen : Nat) (c : Config) (io : IOFaults) :
 /-! Non-vacuity: a failing flush with everything else fine is reported -/
 example : (writeFile 341 Config.init { writeOk := false }).ret = false := by decide
 example : (writeFile 341 Config.init {}).ret = true := by decide
+
+/-- Bridge: the fsync option bit and the I/O error type -/
+theorem C12_constants :
+    Generated.CONFIG_OPTION_FSYNC = OPT_FSYNC ∧ Generated.CONFIG_ERR_FILE_IO = ERR_FILE_IO ∧ Generated.CONFIG_ERR_NONE = ERR_NONE := by decide
 
 end Libconfig.C12
